@@ -202,7 +202,7 @@ Module Witness.
            (EOr (ELike false (col "b") (EStr "%(_)")) (EIs IsTrue (col "c")))).
 
   Definition rec0 : qctx -> job -> res value := fun _ _ => Err.
-  Definition ctx0 : qctx := {| c_data := [("t"%string, VArr (map VObj rows))]; c_ctes := []; c_busy := [] |}.
+  Definition ctx0 : qctx := {| c_data := [("t"%string, VArr (map VObj rows))]; c_ctes := []; c_busy := []; c_up := [] |}.
   Definition s0 : select stmt :=
     {| s_with := []; s_from := FTable ["t"%string] ""; s_where := Some p; s_group := [];
        s_having := None; s_items := [IStar]; s_distinct := false; s_order := [];
